@@ -67,6 +67,8 @@ package function
 //@   at line "for i := range vector.Samples {" assert first-id-indexes-series: len(vector.SampleIDs) > 0 ==> vector.SampleIDs[0] < o.nextOps[o.vectorIndex].nSeries
 //@   at field:execution/function.functionOperator.call assert[C06] function-gets-the-sample: len($f.Points) == 1 && $f.Points[0].V == vector.Samples[i]
 //@   at field:execution/function.functionOperator.call assert[C06] function-gets-the-step-time: $f.StepTime == vector.T
+// (Known finding on the pinned tree: the point handed to the function carries no timestamp at all, so timestamp() yields 0.)
+//@   at field:execution/function.functionOperator.call assert[C06] sample-carries-the-time-of-its-step: $f.Points[0].T == vector.T
 //@   at field:execution/function.functionOperator.call assert[C06] function-gets-the-scalars-of-its-step: sameslice($f.ScalarPoints, o.scalarPoints[batchIndex])
 //@   after field:execution/function.functionOperator.call set nvalid = nvalid + ite(validSample($r), 1, 0)
 //@   at line "vector.Samples[kept] = result.V" assert[C06] kept-sample-has-a-value: validSample(result)
